@@ -1,19 +1,43 @@
 (* C11: the printer/parser theorems instantiated with the operator table regenerated from the source. *)
 From Coq Require Import Bool List Arith Lia String.
 From Rooc Require Import Model.Exp Gen.PrattTable Model.Pratt Model.Printer Proof.PrattSound Proof.PrattTable
-  Proof.PrinterWf Proof.PrinterParse.
+  Proof.PrinterWf Proof.PrinterParse Model.LinRow Proof.LinRowParse.
 Import ListNotations.
 
 Lemma src_prec_pos : forall op, 0 < src_prec op.
 Proof. intros op. destruct op; vm_compute; lia. Qed.
 
+(* the printers' table (math/operators.rs) and the parser's table (exp_parser.rs) order the operators the same way:
+   checked for the REGENERATED tables, all 81 pairs *)
+Definition all_binops : list binop := [Add; Sub; Mul; Div; BAnd; BOr; BXor; BImplies; BIff].
+Lemma tables_compatible :
+  forallb (fun a => forallb (fun b =>
+     Bool.eqb (Nat.ltb (prt_prec a) (prt_prec b)) (Nat.ltb (src_prec a) (src_prec b)) &&
+     Bool.eqb (Nat.eqb (prt_prec a) (prt_prec b)) (Nat.eqb (src_prec a) (src_prec b))) all_binops &&
+     Bool.eqb (prt_rassoc a) (src_rassoc a)) all_binops = true.
+Proof. vm_compute. reflexivity. Qed.
+Lemma in_all_binops op : In op all_binops.
+Proof. destruct op; cbn; tauto. Qed.
+Lemma src_render_eq t : src_render t = render src_prec src_rassoc t.
+Proof.
+  unfold src_render. apply render_ext. apply needs_parens_ext.
+  - intros a b. pose proof tables_compatible as H. rewrite forallb_forall in H. specialize (H a (in_all_binops a)).
+    apply andb_prop in H as [H _]. rewrite forallb_forall in H. specialize (H b (in_all_binops b)).
+    apply andb_prop in H as [H _]. apply Bool.eqb_prop in H. exact H.
+  - intros a b. pose proof tables_compatible as H. rewrite forallb_forall in H. specialize (H a (in_all_binops a)).
+    apply andb_prop in H as [H _]. rewrite forallb_forall in H. specialize (H b (in_all_binops b)).
+    apply andb_prop in H as [_ H]. apply Bool.eqb_prop in H. exact H.
+  - intros a. pose proof tables_compatible as H. rewrite forallb_forall in H. specialize (H a (in_all_binops a)).
+    apply andb_prop in H as [_ H]. apply Bool.eqb_prop in H. exact H.
+Qed.
+
 Theorem src_parse_render t : src_pparse (pflatten (src_render t)) = Some t.
-Proof. apply parse_render; [exact src_prec_pos|exact src_prefix_tightest]. Qed.
+Proof. rewrite src_render_eq. apply parse_render; [exact src_prec_pos|exact src_prefix_tightest]. Qed.
 Theorem src_format_idempotent t t' :
   src_pparse (pflatten (src_render t)) = Some t' -> pflatten (src_render t') = pflatten (src_render t).
 Proof. rewrite src_parse_render. intros H. inversion H. reflexivity. Qed.
 Theorem src_render_wf t : wfp src_prec src_rassoc src_pprec 0 (src_render t) /\ strip (src_render t) = t.
-Proof. apply render_roundtrip_structure. exact src_prec_pos. Qed.
+Proof. rewrite src_render_eq. apply render_roundtrip_structure. exact src_prec_pos. Qed.
 Theorem src_pparse_complete p : wfp src_prec src_rassoc src_pprec 0 p -> src_pparse (pflatten p) = Some (strip p).
 Proof. apply pparse_complete. exact src_prefix_tightest. Qed.
 Theorem src_pparse_embeds ts : src_pparse (map PT ts) = src_parse ts.
@@ -32,3 +56,11 @@ Lemma src_named_cases :
   pflatten (src_render (Bin BImplies (Bin BImplies (Leaf 0) (Leaf 1)) (Leaf 2))) =
     [PLP; PT (TAtom 0); PT (TInfix BImplies); PT (TAtom 1); PRP; PT (TInfix BImplies); PT (TAtom 2)].
 Proof. vm_compute. repeat split. Qed.
+
+(* rows of the rendered linear model, with the regenerated table *)
+Theorem src_row_parses signs t :
+  row_tree signs = Some t ->
+  src_pparse (row_tokens signs) = Some t /\ forall av, QArith_base.Qeq (teval av t) (row_sum av 0 signs).
+Proof.
+  apply row_parses; [exact src_prec_pos|exact src_prefix_tightest|vm_compute; reflexivity|vm_compute; reflexivity|vm_compute; reflexivity].
+Qed.
